@@ -8,14 +8,15 @@
 (***************************************************************************)
 EXTENDS Registry_Hist, IOUtils
 Trace == ndJsonDeserialize(IOEnv.TRACE)
-VARIABLES l, failed, stat
-tvars == <<l, failed, stat, live, conns, localDone, hist>>
+VARIABLES l, failed, stat, seen   \* seen[m]: outcome kinds on the HTTP bindings of m since the last operation
+tvars == <<l, failed, stat, seen, live, conns, localDone, hist>>
 Stat0 == [hists |-> 0, ops |-> 0, probes |-> 0, requests |-> 0, served |-> 0, none |-> 0, multi |-> 0, drops |-> 0, failing |-> 0, crashes |-> 0, leftover |-> 0]
-TInit == HInit /\ l = 1 /\ failed = {} /\ stat = Stat0
+Seen0 == [m \in HMethods |-> {}]
+TInit == HInit /\ l = 1 /\ failed = {} /\ stat = Stat0 /\ seen = Seen0
 IsEv(e) == l <= Len(Trace) /\ Trace[l].ev = e
 
 THist == /\ IsEv("Hist") /\ live' = [m \in HMethods |-> {}] /\ conns' = {} /\ localDone' = FALSE /\ hist' = <<>>
-         /\ stat' = [stat EXCEPT !.hists = @ + 1] /\ l' = l + 1 /\ UNCHANGED failed
+         /\ stat' = [stat EXCEPT !.hists = @ + 1] /\ l' = l + 1 /\ seen' = Seen0 /\ UNCHANGED failed
 
 \* what the public call must report
 WantOK(op) == CASE op.op \in {"reglocal", "regconn", "reregister", "dropconn"} -> TRUE
@@ -35,14 +36,19 @@ TOp ==
         /\ stat' = [stat EXCEPT !.ops = @ + 1, !.drops = @ + (IF op.op = "dropconn" THEN 1 ELSE 0),
                                 !.failing = @ + (IF op.op = "regfail" THEN 1 ELSE 0),
                                 !.crashes = @ + (IF e.crash # "" THEN 1 ELSE 0)]
-  /\ l' = l + 1
+  /\ l' = l + 1 /\ seen' = Seen0
 
 FullName(m) == CASE m = "A.m1" -> "/vg.A/m1" [] m = "A.m2" -> "/vg.A/m2" [] m = "B.m1" -> "/vg.B/m1" [] m = "B.m2" -> "/vg.B/m2" [] OTHER -> m
 TProbe ==
   /\ IsEv("Probe")
   /\ LET e == Trace[l]
          lv == live[e.m]
+         kinds == IF e.proto = "grpc" THEN {} ELSE {e.outs[k].k : k \in DOMAIN e.outs}
+         sn == seen[e.m] \cup kinds
          bad == (IF \E k \in DOMAIN e.outs : e.outs[k].k = "panic" THEN {"Panic"} ELSE {})
+                \* C12 "all together or not at all", for removal: when a method's last backend has left, its bindings (primary,
+                \* additional, implicit) are either all gone (404) or all still answering Unimplemented - never a mixture
+                \cup (IF lv = {} /\ {"notfound", "unimplemented"} \subseteq sn THEN {"RemovedTogether"} ELSE {})
                 \cup (IF \E k \in DOMAIN e.outs : e.outs[k].k = "served" /\ e.outs[k].by \notin lv THEN {"DispatchLive"} ELSE {})
                 \* ... and by the handler of the method the request names (C01 as well: a method owning a matching rule)
                 \cup (IF \E k \in DOMAIN e.outs : e.outs[k].k = "served" /\ e.outs[k].meth # FullName(e.m) THEN {"DispatchMethod"} ELSE {})
@@ -54,7 +60,8 @@ TProbe ==
                                 !.multi = @ + (IF Cardinality(lv) > 1 THEN 1 ELSE 0),
                                 \* (informational, RegBindings.tla NoLeftover: a route that outlived its method's backends)
                                 !.leftover = @ + (IF lv = {} /\ \E k \in DOMAIN e.outs : e.outs[k].k = "unimplemented" THEN 1 ELSE 0)]
-  /\ l' = l + 1 /\ UNCHANGED <<live, conns, localDone, hist>>
+  /\ l' = l + 1 /\ seen' = [seen EXCEPT ![Trace[l].m] = @ \cup (IF Trace[l].proto = "grpc" THEN {} ELSE {Trace[l].outs[k].k : k \in DOMAIN Trace[l].outs})]
+  /\ UNCHANGED <<live, conns, localDone, hist>>
 
 TSpec == TInit /\ [][THist \/ TOp \/ TProbe]_tvars
 Report == l > Len(Trace) =>
